@@ -97,7 +97,7 @@ class NetworkInfoStructure(Structure):
                             ip=IPv4.from_bytes(message, offset).value,
                             netmask=IPv4.from_bytes(message, offset + 4).value,
                             gateway=IPv4.from_bytes(message, offset + 8).value,
-                            status=bool(message[offset + 13]),
+                            status=bool(message[offset + 12]),
                         ),
                         wlan=WirelessParameters(
                             ip=IPv4.from_bytes(message, offset + 13).value,
